@@ -74,6 +74,8 @@ func genC05(t *rapid.T) *Case {
 	p := carrierProfile()
 	p.Attr = noisyAttr
 	p.EscapedText = true
+	p.ForeignRawText = true
+	p.Inline = append(append([]wc{}, p.Inline...), wc{"mxss", 3})
 	p.Inline = append(append([]wc{}, p.Inline...), wc{"escaped", 4})
 	p.Core = append(append([]wc{}, p.Core...), wc{"pre", 6}, wc{"list", 6})
 	// more media so that all element kinds are retained often
